@@ -29,14 +29,15 @@ def main():
     ap.add_argument('--only', default='')
     ap.add_argument('--checks', default='')
     ap.add_argument('--skip-demo', action='store_true')
+    ap.add_argument('--tag', default='', help='parallel instances: private /verif copy and results.<tag>.json')
     a = ap.parse_args()
     only = set(filter(None, a.only.split(',')))
     root = os.path.join(VERIF, 'seeded')
     # run the checks from a private copy of /verif so that regenerated Coq files / builds of the mutated tree never
     # disturb work going on in /verif itself
-    run_verif = '/tmp/verif-seedrun'
+    run_verif = '/tmp/verif-seedrun' + a.tag
     sh(['rsync', '-a', '--delete', '--exclude', '.git', '--exclude', 'build/replays', VERIF + '/', run_verif + '/'])
-    res_path = os.path.join(root, 'results.json')
+    res_path = os.path.join(root, 'results%s.json' % (('.' + a.tag) if a.tag else ''))
     results = json.load(open(res_path)) if os.path.exists(res_path) else {}
     for sid in sorted(os.listdir(root)):
         d = os.path.join(root, sid)
@@ -47,7 +48,7 @@ def main():
         meta = json.load(open(os.path.join(d, 'meta.json')))
         prop = meta['property']
         checks = a.checks.split(',') if a.checks else [prop]
-        wt = '/tmp/wt-seed-%s' % sid
+        wt = '/tmp/wt-seed-%s%s' % (sid, a.tag)
         sh(['git', '-C', '/repo', 'worktree', 'remove', '--force', wt])
         p = sh(['git', '-C', '/repo', 'worktree', 'add', '--detach', wt, 'HEAD'])
         entry = {'property': prop, 'summary': meta.get('summary', ''), 'checks': {}}
